@@ -138,5 +138,26 @@ claim("C12", "other",
       "watchdog on Unicode soup and pumped families.", _PIPE_NOTE,
       "contract-based deductive verification: no-raise and variant obligations (AST->VC + z3); bounded fuzzing under a watchdog as stand-in",
       "DESIGN.md §3 C12")
-for _p in ["C08", "C09", "C17", "C18"]:
+claim("C08", "other",
+      "Discharged: for an arbitrary match whose group structure is derived mechanically from the live QUOTE_PATTERN, the "
+      "replacement callback returns text that is position-by-position equal to the match except that the two straight quotes "
+      "become the matching curly ones (relation Q, decided structurally on the term); fill_markdown applies the rewrite only "
+      "via rewrite_text_across_inlines(smart_quotes), guarded by its option. The lift to whole strings/documents uses the "
+      "unchecked congruence lemma and is checked exhaustively on all strings up to length 4/5 over a 13-symbol alphabet and "
+      "on the document space (option on vs off).",
+      "re.sub decomposition and L-congruence(Q) assumed; rewrite_text_across_inlines' position mapping and "
+      "_collect_inline_segments are not under contract (covered by the document-level differential only).",
+      "contract-based deductive verification of the rewrite callback (AST->VC + z3, group structure from re._parser); "
+      "exhaustive short-string and document differential as bounded stand-in", "DESIGN.md §3 C08")
+claim("C09", "other",
+      "Discharged: for an arbitrary match with the group structure derived from the live ELLIPSIS_PATTERN the callback returns "
+      "the match unchanged or prefix + (space | spaces-before) + ellipsis + punctuation + (space | spaces-after) on every path "
+      "(all combinations of the uninterpreted \\w / end-of-text tests); fill_markdown applies it only via "
+      "rewrite_text_content(ellipses, coalesce_lines=True), guarded by its option. Idempotence of the rewrite cannot be decided "
+      "by a contract and is checked exhaustively on short strings.",
+      "re.sub decomposition and L-congruence(D) assumed; rewrite_text_content / coalesce_raw_text_nodes not under contract "
+      "(document-level differential only); one known finding (ellipsis at a text-node boundary) shared with C02.",
+      "contract-based deductive verification of the rewrite callback (AST->VC + z3); exhaustive short-string idempotence and "
+      "document differential as bounded stand-in", "DESIGN.md §3 C09")
+for _p in ["C17", "C18"]:
     NOT_APPLICABLE[_p] = "check not built yet in this round (planned in DESIGN.md §3); nothing is claimed"
